@@ -11,7 +11,7 @@ from props.C15 import Machine
 REQUIRED_THEOREMS = ['Usid.C03.batches_partition', 'Usid.C03.batches_disjoint_ordered', 'Usid.C03.exactly_once',
                      'Usid.C03.final_state', 'Usid.C03.all_complete', 'Usid.C03.batch_irrelevant',
                      'Usid.C03.cores_irrelevant']
-RULE = ('random (N, M, completion mask incl. N up to 1200 with < 0.5 % pending, batch limit, cores, lazy, same-file/separate target); real compute() of a '
+RULE = ('[also: positional / keyword arguments handed through compute() to the map function, verbose=True, machines with 1 / 2 / 4 / 8 logical cores and negative or excessive core requests, multi-worker batches shorter than the pending list, a second compute() on the finished object; serial call order and the worker count observed] random (N, M, completion mask incl. N up to 1200 with < 0.5 % pending, batch limit, cores, lazy, same-file/separate target); real compute() of a '
         'Process subclass whose map function logs every call through an O_APPEND file; non-trivial = a pending '
         'position exists and (several batches or non-contiguous mask or multi-core)')
 TRUSTED = ['joblib worker scheduling is not modelled: "identical results in identical order" for cores > 1 rests on '
@@ -52,7 +52,20 @@ def generate(seed, tier):
                       'cores': rng.choice([2, 4, 16]) if big else rng.choice([1, 1, 2, 4, None]),
                       'lazy': rng.random() < 0.3, 'separate': rng.random() < 0.3,
                       'fresh': kind == 'zero' and rng.random() < 0.6,
-                      'dtype': rng.choice(['f8', 'f8', 'f4', 'c16'])})
+                      'dtype': rng.choice(['f8', 'f8', 'f4', 'c16']),
+                      # arguments handed through compute() to the map function; verbose output; the machine's size;
+                      # a second compute() on the same object
+                      'fargs': rng.choice([None, None, [2.0], [-1.5]]), 'fkw': rng.choice([None, None, {'scale': 3}]),
+                      'verbose': rng.random() < 0.15, 'logical': rng.choice([16, 16, 1, 2, 4, 8]),
+                      'again': rng.random() < 0.2})
+        c = cases[-1]
+        if c['logical'] != 16 and not big:
+            c['cores'] = rng.choice([None, 1, 2, -3, 32, c['logical']])
+        if big:
+            c['logical'] = 16
+        if i % 12 == 2:      # real multi-worker batches that are SHORTER than the pending list
+            n2 = rng.randint(170, 420)
+            c.update(n=n2, mask=[0] * n2, batch=rng.randint(85, 130), cores=rng.choice([2, 4]), logical=16, fresh=True)
     return cases
 
 
@@ -77,15 +90,24 @@ def run_impl(inp, work):
             g = f.create_group('T')
             if prior is not None:
                 procs.make_prior_group(g, 'main', 'RowProc', {'a': 1}, n, mask=mask, results=prior)
-    with Machine(16, 2 ** 33):
+    with Machine(inp.get('logical', 16), 2 ** 33):
         f = h5py.File(src, 'r+')
         ft = h5py.File(tgt, 'r+') if inp['separate'] else None
         try:
             with quiet():
                 kw = {'h5_target_group': ft['T']} if ft is not None else {}
+                if inp.get('verbose'):
+                    kw['verbose'] = True
                 p = RowProc(f['G/main'], parms={'a': 1}, cores=inp['cores'], lazy=inp['lazy'], **kw)
                 p._max_pos_per_read = inp['batch']
-                grp = p.compute()
+                fargs, fkw = tuple(inp.get('fargs') or ()), dict(inp.get('fkw') or {})
+                grp = p.compute(False, *fargs, **fkw) if (fargs or fkw) else p.compute()
+                calls_first = len(procs.read_log(log, m))
+                if inp.get('again'):
+                    grp2 = p.compute(False, *fargs, **fkw) if (fargs or fkw) else p.compute()
+                    again = {'same_group': grp2.name == grp.name, 'extra_calls': len(procs.read_log(log, m)) - calls_first}
+                else:
+                    again = None
             status = [int(x) for x in grp['completed_positions'][()]]
             results = [float(x) for x in grp['Results'][()]]
             main = f['G/main'][()]
@@ -94,13 +116,15 @@ def run_impl(inp, work):
             f.close()
             if ft is not None:
                 ft.close()
-    want = [procs.map_value(main[i]) for i in range(n)]
+    scale = float((inp.get('fkw') or {}).get('scale', 1))
+    offset = float((inp.get('fargs') or [0])[0])
+    want = [procs.map_value(main[i]) * scale + offset for i in range(n)]
     calls = procs.read_log(log, m)
     computed = [i for i in range(n) if results[i] == want[i]]
     untouched = [i for i in range(n) if prior is not None and results[i] == prior[i]]
     return {'batches': p.batches, 'calls_sorted': sorted(calls), 'calls_in_order': calls == sorted(calls),
             'status': status, 'computed': computed, 'untouched': untouched, 'in_target': in_target,
-            'workers': int(p._cores)}
+            'workers': int(p._cores), 'again': again, 'calls_raw': calls[:2000]}
 
 
 def oracle(inp, obs):
@@ -127,6 +151,13 @@ def oracle(inp, obs):
         fails.append('batch-limit: a batch is empty or larger than the limit %d' % inp['batch'])
     if not obs['in_target']:
         fails.append('target: results group is not in the requested target file')
+    if not (1 <= obs['workers'] <= inp.get('logical', 16)):
+        fails.append('workers: %d workers on a machine with %d logical cores' % (obs['workers'], inp.get('logical', 16)))
+    if obs.get('again') is not None and (obs['again']['extra_calls'] != 0 or not obs['again']['same_group']):
+        fails.append('second-compute: calling compute() again on the finished object invoked the map function %d more '
+                     'times / returned another group' % obs['again']['extra_calls'])
+    if obs['workers'] == 1 and not obs['calls_in_order']:
+        fails.append('serial-order: a serial run did not invoke the map function in the order of the pending positions')
     return fails
 
 
